@@ -26,6 +26,7 @@ func (s *seeder) generate() {
 		s.seedPacks(rp, r)
 		s.seedCommitGraph(rp)
 	}
+	s.seedDeltaCycles()
 	wt := s.seedIndex(r)
 	s.seedReflog(wt)
 	s.seedConfig(rp1, wt, r)
